@@ -82,7 +82,7 @@ class Chars:
 class ScanWorld:
     def __init__(self, prog='vm-dbg', max_tokens=8):
         self.P = P = get_program(prog)
-        self.e = e = Engine(P, loop_bound=12, timeout_s=900, max_depth=60, max_paths=60000)
+        self.e = e = Engine(P, loop_bound=12, timeout_s=6 * 3600, max_depth=60, max_paths=2000000)
         m = e.model
         OPT = P.enum_def('Option')
 
